@@ -1,6 +1,7 @@
 """Contracts for sc3/synth/_engine.py — node ids and block arithmetic (C16)."""
 import z3
 from vf.pyvc.spec import contract
+from vf.pyvc.engine import Unsupported, Raised
 from vf.pyvc.values import *
 from . import base_builtins
 
@@ -609,3 +610,318 @@ contract(F, 'ContiguousBlockAllocator.free', props=('C16',),
          class_modules={'ContiguousBlockAllocator': F, 'Blk': F}, native=False,
          note='neighbour search and join are opaque here (their own contracts: _find_previous/_find_next/'
               'ContiguousBlock.join); the obligation is the data flow of the joined block between the two steps')
+
+
+# ---- alloc(n) and _reserve: from the block found to the range handed out -----------------------------------------------
+# alloc: "no space" (None) exactly when _find_available found nothing; otherwise the block found is reserved from ITS
+# start for exactly n slots and the start of the reserved part is the answer.
+# _reserve(addr, size, avail, prev): the block the range comes from is `avail`, else `prev`, else the nearest block below
+# addr; a gap between its start and addr is split off FIRST and stays free (booked, not in use); then exactly `size` slots
+# are split off at addr and marked in use: the result is the block [addr, addr + size), in use.  Every split stays inside
+# the block it splits (the precondition of _split).  _split is used by its contract (assumed here, proved above).
+def al_find(eng, selfv, args, kwargs, st, node):
+    n = args[0]
+    st2 = st.fork()
+    st.trace.append(('find-available', n, NONE))
+    r = V('ref', cls='Blk', oid='found')
+    st2.trace.append(('find-available', n, r))
+    if n.k == 'int':
+        st2.pc.append(z3.And(z3.Int('found.size') >= n.z, z3.Not(z3.Bool('found.used'))))      # its contract
+    return [(st, NONE), (st2, r)]
+
+
+def al_reserve(eng, selfv, args, kwargs, st, node):
+    r = V('ref', cls='Blk', oid='reserved')
+    st.trace.append(('reserve', tuple(args), dict(kwargs)))
+    if args and args[0].k == 'int':
+        st.pc.append(z3.Int('reserved.start') == args[0].z)                                  # its contract
+    return [(st, r)]
+
+
+def alloc_post(c):
+    fa = [e for e in c.trace if e[0] == 'find-available']
+    rs = [e for e in c.trace if e[0] == 'reserve']
+    if len(fa) != 1 or fa[0][1] is not c._params['n']:
+        return z3.BoolVal(False)
+    if c.resultv.k == 'none':
+        return z3.BoolVal(fa[0][2].k == 'none' and not rs)                   # "no space" only when nothing was found
+    if len(rs) != 1 or fa[0][2].k != 'ref' or c.resultv.k != 'int':
+        return z3.BoolVal(False)
+    a, kw = rs[0][1], rs[0][2]
+    names = ['addr', 'size', 'avail_block', 'prev_block']
+    got = dict(zip(names, a)); got.update(kw)
+    ok = (got.get('size') is c._params['n'] and got.get('avail_block') is fa[0][2] and got.get('prev_block', NONE).k == 'none'
+          and got.get('addr') is not None and got['addr'].k == 'int')
+    if not ok:
+        return z3.BoolVal(False)
+    return z3.And(got['addr'].z == z3.Int('found.start'), c.result == z3.Int('reserved.start'))
+
+
+contract(F, 'ContiguousBlockAllocator.alloc', props=('C16',),
+         params={'self': 'self', 'n': 'int'},
+         requires=lambda c: c.n >= 1,
+         ensures=[('no-space-iff-nothing-found;else-the-found-block-reserved-from-its-start-for-n,start-returned', alloc_post)],
+         modifies=[],
+         fields={'ContiguousBlockAllocator': {'_array': 'obj', 'addr_offset': 'int', 'top': 'int', 'size': 'int',
+                                              'pos': 'int', '_freed': 'obj'}, 'Blk': BLK},
+         hooks={'compare': fr_compare},
+         policies={'ContiguousBlockAllocator._find_available': al_find,
+                   'ContiguousBlockAllocator._reserve': al_reserve},
+         class_modules={'ContiguousBlockAllocator': F, 'Blk': F}, native=False)
+
+
+def rs_split(eng, selfv, args, kwargs, st, node):
+    names = ['avail_block', 'n', 'used']
+    got = dict(zip(names, args)); got.update(kwargs)
+    av, n, used = got['avail_block'], got['n'], got.get('used', vbool(z3.BoolVal(True)))
+    k = len([e for e in st.trace if e[0] == 'split']) + 1
+    if av.k == 'none':
+        return [(st, Raised(eng.make_exc('AttributeError', node=node)))]          # None.split(n): nothing left to cut from
+    if av.k != 'ref' or n.k != 'int' or used.k != 'bool':
+        raise Unsupported(node, '_split of %s %s %s' % (av.k, n.k, used.k))
+    avs = z3.Int(av.oid + '.start'); avz = z3.Int(av.oid + '.size')
+    new = V('ref', cls='Blk', oid='new%d' % k)
+    rest = V('ref', cls='Blk', oid='rest%d' % k)
+    st.trace.append(('split', av, n.z, used.z, new, rest, avs, avz))
+    # _split's contract: the first n slots, marked as told; the rest right behind (None when nothing is left)
+    facts = [z3.Int(new.oid + '.start') == avs, z3.Int(new.oid + '.size') == n.z, z3.Bool(new.oid + '.used') == used.z]
+    st2 = st.fork()
+    st.pc.extend(facts + [n.z < avz, z3.Int(rest.oid + '.start') == avs + n.z, z3.Int(rest.oid + '.size') == avz - n.z,
+                          z3.Bool(rest.oid + '.used') == z3.Bool(av.oid + '.used')])
+    st2.pc.extend(facts + [n.z >= avz])
+    return [(st, vlist([new, rest])), (st2, vlist([new, NONE]))]
+
+
+def rs_prev(eng, selfv, args, kwargs, st, node):
+    r = V('ref', cls='Blk', oid='below')
+    st.trace.append(('find-prev', args[0], r))
+    if args[0].k == 'int':
+        st.pc.append(z3.And(z3.Int('below.start') < args[0].z, z3.Int('below.size') > 0))     # its contract: a block below addr
+    return [(st, r)]
+
+
+def reserve_pre(c):
+    # what the call sites establish: the block the range comes from is free, starts at or below addr and holds the range
+    cl = [c.size >= 1]
+    for nm in ('avail_block', 'prev_block'):
+        if c.kinds.get(nm) != 'none':
+            b = getattr(c.pre, nm)
+            cl += [b.size > 0, b.start <= c.addr, c.addr + c.size <= b.start + b.size, z3.Not(b.used)]
+            break
+    else:
+        cl += [c.addr + c.size <= z3.Int('below.start') + z3.Int('below.size')]
+    return z3.And(*cl)
+
+
+def reserve_post(c):
+    t = c.trace
+    sp = [e for e in t if e[0] == 'split']
+    fp = [e for e in t if e[0] == 'find-prev']
+    r = c.resultv
+    # where the range comes from
+    if c.kinds.get('avail_block') != 'none':
+        src, want_fp = 'avail_block', 0
+    elif c.kinds.get('prev_block') != 'none':
+        src, want_fp = 'prev_block', 0
+    else:
+        src, want_fp = 'below', 1
+    if len(fp) != want_fp or (fp and fp[0][1] is not c._params['addr']) or not sp or r.k != 'ref':
+        return z3.BoolVal(False)
+    if sp[0][1].oid != src:
+        return z3.BoolVal(False)
+    inside = [z3.And(e[2] >= 1, e[2] <= e[7]) for e in sp]                          # every split inside its block
+    last = sp[-1]
+    cl = inside + [z3.BoolVal(r is last[4]), last[3], last[2] == c.size]             # the first `size` slots of the last split, in use
+    if len(sp) == 1:
+        cl += [last[6] == c.addr]                                                    # no gap: the block starts at addr
+    elif len(sp) == 2:
+        gap = sp[0]
+        cl += [gap[6] < c.addr, gap[2] == c.addr - gap[6], z3.Not(gap[3]),           # the gap below addr stays free
+               z3.BoolVal(last[1] is gap[5])]                                        # and the range is cut from what is left
+    else:
+        return z3.BoolVal(False)
+    rs, rz, ru = z3.Int(r.oid + '.start'), z3.Int(r.oid + '.size'), z3.Bool(r.oid + '.used')
+    cl += [rs == c.addr, rz == c.size, ru]                                           # [addr, addr + size), in use
+    return z3.And(*cl)
+
+
+contract(F, 'ContiguousBlockAllocator._reserve', props=('C16',),
+         params={'self': 'self', 'addr': 'int', 'size': 'int', 'avail_block': ['none', 'ref:Blk'], 'prev_block': ['none', 'ref:Blk']},
+         requires=reserve_pre,
+         ensures=[('range-cut-at-addr-from-the-given-block:gap-below-stays-free,exactly-size-slots-in-use,every-split-inside-its-block', reserve_post)],
+         modifies=[],
+         fields={'ContiguousBlockAllocator': {'_array': 'obj', 'addr_offset': 'int', 'top': 'int', 'size': 'int',
+                                              'pos': 'int', '_freed': 'obj'}, 'Blk': BLK},
+         hooks={'compare': fr_compare},
+         policies={'ContiguousBlockAllocator._split': rs_split,
+                   'ContiguousBlockAllocator._find_previous': rs_prev},
+         class_modules={'ContiguousBlockAllocator': F, 'Blk': F}, native=False,
+         note='_split and _find_previous by their contracts (proved above), written out as facts on fresh blocks')
+
+
+# ---- the free lists: size -> set of free blocks of that size -------------------------------------------------------------
+# _add_to_freed(b): b enters the set filed under ITS size (a set is made first when the size has none); nothing else.
+# _remove_from_freed(b): b leaves the set filed under its size if it is there; a set that became empty is deleted with
+# its key (so that _find_available's "key present" means "a block of that size is free"); nothing else.
+# The dictionary and its sets are ghost: lookups, membership tests, emptiness tests are recorded as events.
+HAS_SET = z3.Bool('freed.has_set_for_size')
+IN_SET = z3.Bool('freed.block_in_set')
+
+
+def fl_set(size):
+    return V('obj', oid='the-set', extra={'size': size})
+
+
+def fl_getattr(eng, obj, name, st, node):
+    if obj.k == 'obj' and obj.oid == 'self._freed' and name == 'get':
+        def get(eng, a, kw, st, node):
+            if len(a) != 1 or a[0].k != 'int':
+                raise Unsupported(node, 'free-list lookup')
+            st.trace.append(('lookup', a[0].z))
+            r = V('ref', cls='FSet', oid='the-set', extra={'maybe_none': z3.Not(fl_has(st)), 'size': a[0].z})
+            return [(st, r)]
+        return [(st, V('func', py=('spec', get)))]
+    if obj.k == 'ref' and obj.cls == 'FSet' and name in ('add', 'remove'):
+        def m(eng, a, kw, st, node, _n=name, _o=obj):
+            st.trace.append(('set-' + _n, _o.extra['size'], a[0]))
+            return [(st, NONE)]
+        return [(st, V('func', py=('spec', m)))]
+    return None
+
+
+def fl_has(st):
+    """is there a set under the size - as of now (a set stored by this call counts)"""
+    return z3.BoolVal(True) if any(e[0] == 'store-set' for e in st.trace) else HAS_SET
+
+
+def fl_getitem(eng, obj, idx, st, node):
+    if obj.k == 'obj' and obj.oid == 'self._freed' and idx.k == 'int':
+        st.trace.append(('index', idx.z))
+        return [(st, V('ref', cls='FSet', oid='the-set', extra={'size': idx.z}))]
+    return None
+
+
+def fl_setitem(eng, obj, idx, v, st, node):
+    if obj.k == 'obj' and obj.oid == 'self._freed' and idx.k == 'int':
+        st.trace.append(('store-set', idx.z, v))
+        return [('next', st)]
+    return None
+
+
+def fl_delitem(eng, obj, idx, st, node):
+    if obj.k == 'obj' and obj.oid == 'self._freed' and idx.k == 'int':
+        st.trace.append(('delete-key', idx.z))
+        return [('next', st)]
+    return None
+
+
+def fl_contains(eng, container, item, st, node):
+    if container.k == 'ref' and container.cls == 'FSet':
+        st.trace.append(('member?', container.extra['size'], item))
+        return IN_SET
+    return None
+
+
+def fl_truth(eng, v, st, node):
+    if v.k == 'ref' and v.cls == 'FSet':
+        b = z3.Bool('set_nonempty!%d' % next(eng.counter))
+        st.trace.append(('non-empty?', v.extra['size'], b, len(st.trace)))
+        return b
+    return None
+
+
+def add_freed_post(c):
+    t = c.trace
+    b = c.pre.block
+    stores = [e for e in t if e[0] == 'store-set']
+    adds = [e for e in t if e[0] == 'set-add']
+    others = [e for e in t if e[0] in ('set-remove', 'delete-key')]
+    if others or len(adds) != 1 or len(stores) > 1:
+        return z3.BoolVal(False)
+    cl = [adds[0][1] == b.size, z3.BoolVal(adds[0][2] is c._params['block'])]            # filed under ITS size
+    if stores:
+        cl += [z3.Not(HAS_SET), stores[0][1] == b.size,                                  # a new set only where there is none
+               z3.BoolVal(stores[0][2].k == 'obj' and str(stores[0][2].oid).startswith('new!set!')),   # an EMPTY set of its own
+               z3.BoolVal(t.index(stores[0]) < t.index(adds[0]))]
+    else:
+        cl += [HAS_SET]
+    return z3.And(*cl)
+
+
+def remove_freed_post(c):
+    t = c.trace
+    b = c.pre.block
+    rems = [e for e in t if e[0] == 'set-remove']
+    dels = [e for e in t if e[0] == 'delete-key']
+    tests = [e for e in t if e[0] == 'non-empty?']
+    if [e for e in t if e[0] in ('set-add', 'store-set')] or len(rems) > 1 or len(dels) > 1:
+        return z3.BoolVal(False)
+    if not rems and not dels and not tests:
+        return z3.Not(HAS_SET) if not [e for e in t if e[0] == 'member?'] else z3.BoolVal(False)   # no set of that size: nothing
+    cl = [HAS_SET]
+    cl.append(z3.BoolVal(len(rems) == 1) == IN_SET)                                      # taken out iff it was in
+    if rems:
+        cl += [rems[0][1] == b.size, z3.BoolVal(rems[0][2] is c._params['block'])]
+    if not tests:
+        return z3.BoolVal(False)
+    last = tests[-1]
+    if rems and last[3] < t.index(rems[0]):
+        return z3.BoolVal(False)                                                         # emptiness looked at AFTER the removal
+    cl.append(z3.BoolVal(len(dels) == 1) == z3.Not(last[2]))                             # key deleted iff the set is now empty
+    if dels:
+        cl.append(dels[0][1] == b.size)
+    return z3.And(*cl)
+
+
+FL_FIELDS = {'ContiguousBlockAllocator': {'_array': 'obj', 'addr_offset': 'int', 'top': 'int', 'size': 'int',
+                                          'pos': 'int', '_freed': 'obj'}, 'Blk': BLK, 'FSet': {}}
+FL_HOOKS = {'getattr': fl_getattr, 'getitem': fl_getitem, 'setitem': fl_setitem, 'delitem': fl_delitem,
+            'contains': fl_contains, 'compare': fr_compare, 'truth': fl_truth}
+contract(F, 'ContiguousBlockAllocator._add_to_freed', props=('C16',),
+         params={'self': 'self', 'block': 'ref:Blk'},
+         ensures=[('filed-under-its-size,a-new-set-only-where-there-is-none,nothing-else', add_freed_post)],
+         modifies=[], fields=FL_FIELDS, hooks=FL_HOOKS,
+         class_modules={'ContiguousBlockAllocator': F, 'Blk': F, 'FSet': F}, native=False)
+contract(F, 'ContiguousBlockAllocator._remove_from_freed', props=('C16',),
+         params={'self': 'self', 'block': 'ref:Blk'},
+         ensures=[('taken-out-iff-in,the-emptied-set-deleted-with-its-key,nothing-else', remove_freed_post)],
+         modifies=[], fields=FL_FIELDS, hooks=FL_HOOKS,
+         class_modules={'ContiguousBlockAllocator': F, 'Blk': F, 'FSet': F}, native=False)
+
+
+# ---- ContiguousBlockAllocator.__init__: one free block over the whole partition above the reserved numbers ------------------------
+def ci_setitem(eng, obj, idx, v, st, node):
+    if idx.k == 'int' and v.k == 'ref':
+        st.trace.append(('slot', idx.z, v, obj))
+        return [('next', st)]
+    return None
+
+
+def cba_init_post(c):
+    s = c.post.self
+    slots = [e for e in c.trace if e[0] == 'slot']
+    if len(slots) != 1:
+        return z3.BoolVal(False)
+    _, at, blk, table = slots[0]
+    b = c.view(blk)
+    arr = c.st.objs.get('self', {}).get('_array')
+    freed = c.st.objs.get('self', {}).get('_freed')
+    table_ok = arr is not None and arr is table and table.k == 'seq'                 # the table that is kept is the one written
+    fresh_dict = freed is not None and freed.k == 'obj' and str(freed.oid).startswith('new!dict!')
+    cl = [z3.BoolVal(bool(table_ok and fresh_dict)),
+          at == c.pos,                                                               # slot = address - addr_offset
+          b.start == c.pos + c.addr_offset, b.size == c.size - c.pos, z3.Not(b.used),   # [pos + offset, size + offset): all free
+          s.size == c.size, s.pos == c.pos + c.addr_offset, s.top == c.pos + c.addr_offset, s.addr_offset == c.addr_offset]
+    if table_ok:
+        cl.append(table.extra['len'] == c.size)                                      # `size` slots
+    return z3.And(*cl)
+
+
+contract(F, 'ContiguousBlockAllocator.__init__', props=('C16',),
+         params={'self': 'self', 'size': 'int', 'pos': 'int', 'addr_offset': 'int'},
+         requires=lambda c: z3.And(c.size >= 1, c.pos >= 0, c.pos < c.size, c.addr_offset >= 0),
+         ensures=[('one-free-block-from-pos-to-the-end-of-the-partition,at-slot-pos;marks-at-its-start;no-freed-blocks', cba_init_post)],
+         fields={'ContiguousBlockAllocator': {'_array': 'obj', 'addr_offset': 'int', 'top': 'int', 'size': 'int',
+                                              'pos': 'int', '_freed': 'obj'}, 'ContiguousBlock': CB},
+         hooks={'setitem': ci_setitem}, inline=('ContiguousBlock.__init__',), opts={'construct': ('ContiguousBlock',)},
+         class_modules={'ContiguousBlockAllocator': F, 'ContiguousBlock': F}, native=False)
